@@ -38,6 +38,10 @@ Definition pf_src07 (c : src_case) : bool :=
 Definition resp_same_src (a b : response) : bool :=
   resp_eqb a b && list_eqb String.eqb (map fst (rs_causes a)) (map fst (rs_causes b)) && shared_eqb (rs_shared a) (rs_shared b).
 Definition pf_src15 (c : src_case) : bool := negb (resp_same_src (fst (sc_obs c)) (sc_fresh c)).
+(** C12 at the level of the sources: the dry run over what the live lister returned is bounded and honest *)
+Definition pf_src12 (c : src_case) : bool :=
+  if wi_pods_informer (sc_wiring c) then false        (* the informer's list order is not defined *)
+  else pf12 (sc_adm c) || pf11 (sc_adm c).
 Definition run_src (pf : src_case -> bool) (cs : list src_case) : list N * list N :=
   (find_idx pf cs, find_idx mismatch_src cs).
 Definition pf_src_none (c : src_case) : bool := false.
